@@ -39,6 +39,7 @@ func checkC04(r *Result) {
 	r.Assumptions = []string{"x/bank moves exactly the coins given and keeps balances consistent", "the clauses of C03 (mint/burn frame), C09 (credits add up to the reward moved), C13 (dispute payouts once) hold"}
 	r.rule("CENSUS-ESCROW", "every coin movement of the repository is one of the reviewed movers")
 	r.rule("MOVER-SOURCES", "parametric movers are called only with the reviewed constant sources")
+	r.rule("FEE-IN-FULL", "a dispute fee paid from stake reaches the dispute account in full: the amount moved is the amount the dispute module records as paid")
 	r.rule("TIP-PAIR", "Query.Amount grows by exactly the coin that stays in the oracle account")
 	r.rule("PAYOUT-PAIR", "a tip payout moves the query's recorded amount and the query is removed on the same path")
 	r.rule("AMOUNT-ONCE", "an unpaid amount is never copied to a second open query")
@@ -154,6 +155,32 @@ func checkC04(r *Result) {
 			ok = FuncName(TopFunc(cs.Fn)) == "(x/reporter/keeper.Keeper).tokensToDispute"
 		}
 		r.check(ok, "MOVER-SOURCES", FuncName(TopFunc(cs.Fn))+" # tokensToDispute source is a staking pool", pos(cs.Pos()), clip(t.String(), 100))
+	}
+	// ---- FEE-IN-FULL: the dispute module books the whole fee (payer record, FeeTotal) when FeefromReporterStake returns nil;
+	// the amount that function moves must be that fee -- its parameter, or a value a dominating test found equal to it
+	if ff := need("(x/reporter/keeper.Keeper).FeefromReporterStake"); ff != nil {
+		isAmt := func(t *Term) bool { return strings.HasPrefix(t.Op, "param:3:") }
+		pf := AnalyzePaths(ff, []Atom{{Name: "equalsFee", Cond: func(rel *Term) (bool, bool) {
+			if rel.Op == "call:(cosmossdk.io/math.Int).Equal" && len(rel.Args) == 2 && (isAmt(rel.Args[0]) || isAmt(rel.Args[1])) {
+				return true, true
+			}
+			return false, false
+		}}})
+		n := 0
+		for _, cs := range P.CallSitesIn(ff) {
+			if cs.Callee != "(x/reporter/keeper.Keeper).tokensToDispute" {
+				continue
+			}
+			n++
+			a := tm.Of(Arg(cs.Instr, 2))
+			ok := isAmt(a)
+			if !ok {
+				ok = len(pf.Require(cs.Instr, func(v map[string]bool) bool { return v["equalsFee"] })) == 0
+			}
+			r.check(ok, "FEE-IN-FULL", "(x/reporter/keeper.Keeper).FeefromReporterStake # the amount moved to the dispute account is the fee", pos(cs.Pos()),
+				"moved: "+clip(a.String(), 120)+" -- a sum of per-selector shares, each truncated to whole loya before unbonding, not compared with the fee")
+		}
+		r.check(n == 1, "FEE-IN-FULL", "(x/reporter/keeper.Keeper).FeefromReporterStake # one transfer to the dispute account", pos(ff.Pos()), fmt.Sprint(n))
 	}
 	// ---- TIP-PAIR
 	if tr := need("(x/oracle/keeper.Keeper).transfer"); tr != nil {
